@@ -60,9 +60,31 @@ pub enum Platform {
     WASM32_SIMD,
 }
 
+// Verification hook (off unless built with --cfg blake3_team_blake3_verif): a
+// per-thread override consulted first by Platform::detect(), so that one build
+// can run the whole crate at every SIMD level.
+#[cfg(all(blake3_team_blake3_verif, feature = "std"))]
+std::thread_local! {
+    static VERIF_FORCED_PLATFORM: core::cell::Cell<Option<Platform>> =
+        const { core::cell::Cell::new(None) };
+}
+
+#[cfg(all(blake3_team_blake3_verif, feature = "std"))]
+#[doc(hidden)]
+pub fn verif_force_platform(platform: Option<Platform>) {
+    VERIF_FORCED_PLATFORM.with(|cell| cell.set(platform));
+}
+
 impl Platform {
     #[allow(unreachable_code)]
     pub fn detect() -> Self {
+        #[cfg(all(blake3_team_blake3_verif, feature = "std"))]
+        {
+            if let Some(forced) = VERIF_FORCED_PLATFORM.with(|cell| cell.get()) {
+                return forced;
+            }
+        }
+
         #[cfg(miri)]
         {
             return Platform::Portable;
